@@ -3,7 +3,7 @@
 History format (see drivers/lmm_driver.cpp):
   {"solver": "maxmin|fairbottleneck|bmf", "selective": bool, "debug": bool, "fresh": bool, "ops": [...]}
   ops: ["cnst", bound, policy(1 shared|0 fatpipe|2 nonlinear), cbkind, limit], ["var", penalty, bound, capacity],
-       ["expand", c, v, w], ["vbound", v, b], ["vpen", v, p], ["cbound", c, b], ["free", v], ["jump", k], ["solve"]
+       ["expand", c, v, w], ["reexpand", v, k, w] (the k-th resource that v already uses, again), ["vbound", v, b], ["vpen", v, p], ["cbound", c, b], ["free", v], ["jump", k], ["solve"]
   indices are taken modulo the number of live objects, so every list is a valid history and shrinks well.
 """
 import json
@@ -43,6 +43,8 @@ def histories(draw, solvers=("maxmin",), selective=None, limits="some", policies
     bound_c = st.one_of(st.sampled_from([1.0, 2.0, 10.0, 100.0, 1000.0]), dyad(0.5, 1000), dyad(1, 64, 1))
     if limits == "none":
         lim = st.just(-1)
+    elif limits == "tight":
+        lim = st.sampled_from([1, 1, 1, 2])
     elif limits == "many":
         lim = st.sampled_from([-1, 1, 1, 2, 2, 3, 4])
     else:
@@ -62,8 +64,17 @@ def histories(draw, solvers=("maxmin",), selective=None, limits="some", policies
     # an activity declares its resources when it is created: a "burst" is a variable followed by its expands (v = -1: the
     # variable created last); free-standing expands only reach variables created since the last solve (the driver skips others)
     exl = st.tuples(st.just("expand"), idx, st.just(-1), weight)
-    burst = st.tuples(vr, st.lists(exl, min_size=1, max_size=4)).map(lambda t: ("burst", [t[0]] + t[1]))
-    ops = [cn, burst, burst, burst, vr, ex, ex,
+    # inside a burst the same resource is often declared several times (as cross-traffic does: 1.0 then 0.05; or parallel tasks),
+    # with weights below and above 1 (only elements of weight >= 1 count towards a concurrency limit): the repeated declarations
+    # reuse the element, in the middle of the variable's element list
+    few = st.lists(idx, min_size=1, max_size=3)
+    wsmall = st.sampled_from([0.25, 0.5, 0.75, 1.0, 1.0, 0.05, 0.5, 2.0])
+    burst_plain = st.tuples(vr, st.lists(exl, min_size=1, max_size=4)).map(lambda t: ("burst", [t[0]] + t[1]))
+    burst_reuse = st.tuples(vr, few, st.lists(st.tuples(st.integers(0, 2), wsmall), min_size=2, max_size=6)).map(
+        lambda t: ("burst", [t[0]] + [("expand", t[1][k % len(t[1])], -1, w) for k, w in t[2]]))
+    burst = st.one_of(burst_plain, burst_reuse)
+    rex = st.tuples(st.just("reexpand"), idx, idx, wsmall)
+    ops = [cn, burst, burst, burst, vr, ex, ex, rex, rex,
            st.tuples(st.just("vbound"), idx, vbound),
            st.tuples(st.just("vpen"), idx, penalty0),
            st.tuples(st.just("vpen"), idx, st.just(0.0)),
@@ -73,11 +84,19 @@ def histories(draw, solvers=("maxmin",), selective=None, limits="some", policies
     if jumps:
         ops.append(st.tuples(st.just("jump"), st.integers(0, 4)))
     # a constructed prefix guarantees a non-empty system; the rest is free
-    nc0 = draw(st.integers(1, 4))
-    nv0 = draw(st.integers(1, 6))
-    pre = [draw(cn) for _ in range(nc0)] + [draw(vr) for _ in range(nv0)]
-    pre += [draw(ex) for _ in range(draw(st.integers(1, 10)))]
-    rest = draw(st.lists(st.one_of(*ops), min_size=0, max_size=max_ops - len(pre) - 1))
+    if limits == "tight":
+        # few resources with one or two slots each and many small activities: resources are full most of the time, activities
+        # are staged and un-staged by every change; no further resource is created
+        nc0 = draw(st.integers(2, 3))
+        pre = [draw(cn) for _ in range(nc0)]
+        ops = [o for o in ops if o is not cn] + [burst, burst, rex, rex]
+        rest = draw(st.lists(st.one_of(*ops), min_size=4, max_size=max_ops - len(pre) - 1))
+    else:
+        nc0 = draw(st.integers(1, 4))
+        nv0 = draw(st.integers(1, 6))
+        pre = [draw(cn) for _ in range(nc0)] + [draw(vr) for _ in range(nv0)]
+        pre += [draw(ex) for _ in range(draw(st.integers(1, 10)))]
+        rest = draw(st.lists(st.one_of(*ops), min_size=0, max_size=max_ops - len(pre) - 1))
     flat = []
     for o in pre + rest:
         if o[0] == "burst":
